@@ -21,7 +21,7 @@ RULE = ("trees of lower-case .cmake files at depth 0..4 whose contents are gener
         "<name>' both equal <name>, the doccomment body is the module directive's content and none of it appears in the "
         "following command's entry. Non-trivial: depth>=2 or separator != '.' or lone-file input or '@module' directly "
         "followed by a command; distinct by SHA-1 of the case")
-RULE_MORE = "input directory names with dots, a leading dot or blanks (the default prefix); '@module' names ending in '.cmake'. Later: prior run under another prefix; dir-link mode; backslash and blank-ended names; braces in prefix / separator; whitespace variants around '@module'; (round 10) prefixes holding '/' (`org/project`, `tools/`), a backup mirror below the input directory that repeats the input directory's absolute path."
+RULE_MORE = "input directory names with dots, a leading dot or blanks (the default prefix); '@module' names ending in '.cmake'. Later: prior run under another prefix; dir-link mode; backslash and blank-ended names; braces in prefix / separator; whitespace variants around '@module'; (round 10) prefixes holding '/' (`org/project`, `tools/`), a backup mirror below the input directory that repeats the input directory's absolute path; the title frame of every index.rst."
 ASSUMPTIONS = ["file names end in lower-case .cmake", "how inner path components are joined is not constrained, only their order"]
 BUDGET = {"quick": {"shards": 8, "examples": 100}, "thorough": {"shards": 16, "examples": 1500}}
 
@@ -268,6 +268,18 @@ def evaluate(case):
             with open(page_path, encoding="utf-8") as fh:
                 text = fh.read()
             check_page(text, os.path.basename(rel) if lone else rel, mc, case, prefix_applies, prefix, res, titles, modnames, lone)
+        if not lone:
+            # the directory indexes are generated pages too: same title frame from the first configured header character
+            h0 = case["headers"][0] if case["headers"] else "#"
+            for dirpath, _dn, fns in os.walk(out):
+                if "index.rst" in fns and not any(r == os.path.relpath(os.path.join(dirpath, "index.cmake"), out) for r, _ in files):
+                    with open(os.path.join(dirpath, "index.rst"), encoding="utf-8") as fh:
+                        lines = fh.read().split("\n")
+                    while lines and lines[0] == "":
+                        lines.pop(0)
+                    where = os.path.relpath(os.path.join(dirpath, "index.rst"), out)
+                    if len(lines) < 3 or lines[0] != lines[2] or set(lines[0]) != {h0} or len(lines[0]) != len(lines[1]):
+                        res.fail("index-title-frame", f"{where}: frame {lines[:3]!r} is not {h0!r} repeated to the title's length")
         for what, d in (("title", titles), ("module", modnames)):
             for val, rels in d.items():
                 if len(rels) > 1:
